@@ -321,6 +321,14 @@ class Translator:
         return B("T:" + self.key(e))
 
     def cmp(self, a: ast.AST, op: ast.cmpop, b: ast.AST):
+        if isinstance(op, (ast.Eq, ast.NotEq, ast.Is, ast.IsNot)):
+            for x, y in ((a, b), (b, a)):
+                if isinstance(y, ast.Constant) and isinstance(y.value, bool) and (
+                        (isinstance(x, ast.Call) and isinstance(x.func, ast.Name) and x.func.id == "bool" and len(x.args) == 1)
+                        or isinstance(x, (ast.Compare, ast.BoolOp)) or (isinstance(x, ast.UnaryOp) and isinstance(x.op, ast.Not))):
+                    fx = self.f(x)
+                    same = isinstance(op, (ast.Eq, ast.Is)) == y.value
+                    return fx if same else Not(fx)
         if isinstance(op, (ast.Is, ast.IsNot)):
             pos = isinstance(op, ast.Is)
             for x, y in ((a, b), (b, a)):
